@@ -74,6 +74,7 @@ def _mk_solver(pc, extra, timeout_ms):
 
 
 QUICK_MS = int(os.environ.get("PYVC_QUICK_MS", "4000"))
+NOAUX_MS = int(os.environ.get("PYVC_NOAUX_MS", "8000"))
 
 from .engine import _has_quantifier as _has_q
 
@@ -106,6 +107,7 @@ def _symbols(f):
 
 def _slices(pc, sub):
     """premise slices tried before the full query (dropping premises is sound for `unsat`)"""
+    from .engine import AUX_IDS
     gs = _symbols(sub)
     a = [f for f in pc if _symbols(f) <= gs]
     if len(a) < len(pc):
@@ -117,6 +119,13 @@ def _slices(pc, sub):
         c = [f for f in pc if not _mentions_strings(f)]
         if len(c) < len(pc):
             yield "string-free", c
+    d = [f for f in pc if f.get_id() not in AUX_IDS]
+    if len(d) < len(pc):
+        yield "no-aux", d
+        groups = sorted({AUX_IDS[f.get_id()] for f in pc if f.get_id() in AUX_IDS})
+        if len(groups) > 1:
+            for g in groups:
+                yield "no-aux+" + g, [f for f in pc if AUX_IDS.get(f.get_id(), g) == g]
 
 
 def _mentions_strings(f):
@@ -206,7 +215,7 @@ def _solve(pc, goal, timeout_ms, expect):
         done = False
         for sname, sliced in _slices(pc, sub):
             ts = time.time()
-            s = _mk_solver(sliced, z3.Not(sub), min(1500, timeout_ms))
+            s = _mk_solver(sliced, z3.Not(sub), min(1500 if not sname.startswith("no-aux") else NOAUX_MS, timeout_ms))
             rs = str(s.check())
             if os.environ.get("PYVC_DEBUG2"):
                 print("         slice %-12s %d/%d premises -> %s %.0fms   goal=%s" % (
@@ -363,8 +372,10 @@ def solve_plans(plans, timeout_ms):
     for variants in plans:
         done = False
         for label, text in variants[:-1]:
-            r, be = _race([(["z3-new", "-t:1500"], "z3-5.1", 10),
-                           (["/usr/bin/cvc5", "--strings-exp", "--tlimit=1500"], "cvc5-1.0.3", 10)], text)
+            ms = 1500 if not label.startswith("no-aux") else min(NOAUX_MS, timeout_ms)
+            ms5 = max(ms, 3000)     # cvc5 decides several quantified string slices in 1.6 .. 2.5 s that z3 never does
+            r, be = _race([(["z3-new", "-t:%d" % ms], "z3-5.1", 10 + ms // 1000),
+                           (["/usr/bin/cvc5", "--strings-exp", "--tlimit=%d" % ms5], "cvc5-1.0.3", 10 + ms5 // 1000)], text)
             if r == "unsat":
                 backends.add(be)
                 done = True
